@@ -6,7 +6,9 @@ cd $wt || exit 2
 export CARGO_NET_OFFLINE=true
 demo=$(ls tests/demo_test.rs examples/demo.rs 2>/dev/null | head -1)
 run_suite() { mv $demo /tmp/_demo_$id.rs; cargo test --workspace --no-fail-fast --offline 2>&1 | grep -E "^test .* \.\.\. " | sed 's/ *$//' | sort > $1; mv /tmp/_demo_$id.rs $demo; }
-run_demo() { case $demo in tests/*) cargo test --offline --test demo_test >/dev/null 2>&1;; *) cargo run --offline --example demo >/dev/null 2>&1;; esac; echo $?; }
+# a demonstration that uses the guarded hooks is built with the cfg flag (own target dir)
+if grep -q verif_hooks $demo; then DEMOFLAGS="--cfg meshless_voro_verif"; DEMOTD="--target-dir target/verifcfg"; else DEMOFLAGS=""; DEMOTD=""; fi
+run_demo() { export RUSTFLAGS="$DEMOFLAGS"; case $demo in tests/*) cargo test --offline $DEMOTD --test demo_test >/dev/null 2>&1;; *) cargo run --offline $DEMOTD --example demo >/dev/null 2>&1;; esac; rc=$?; unset RUSTFLAGS; echo $rc; }
 git apply -R seed/patch.diff || { echo "cannot revert patch"; exit 2; }
 run_suite /tmp/_suite_before_$id.txt; d0=$(run_demo)
 git apply seed/patch.diff
